@@ -2,7 +2,7 @@
 Rules NONE, LOOPEXIT (evidence), RESTORE, FRAME, SIGN."""
 import ast
 from ..core import AnalysisError, norm, dotted, call_name, walk_no_nested, is_self_attr, parent_map
-from .. import flow
+from .. import flow, roles
 from .listing_common import binding, listing_effects, SIMS
 
 LEVEL = 'other'
@@ -247,15 +247,92 @@ def rule_frame(run):
             run.ok(key, {'write_set': sorted(W), 'methods_reached': len(C)})
 
 
+class SelRoles(object):
+    """The local variables of history()/ordered_selection, found by what they are assigned from
+    (never by name): reversed key, reverse flag, converted list, full/short line index, per-table lists."""
+
+    def __init__(self, prog):
+        self.hi = hi = prog.func('t2listing.t2listing.history')
+        # the nested helper is the one called with self.short_indices
+        self.osel = osel = None
+        call = None
+        for n in walk_no_nested(hi.node):
+            if isinstance(n, ast.Call) and isinstance(n.func, ast.Name) and \
+               any(is_self_attr(a, 'short_indices') for a in n.args):
+                call = n
+        if call is None: raise AnalysisError('history(): call of the selection-ordering helper (gets self.short_indices) not found')
+        self.osel = osel = prog.nested(hi, call.func.id)
+        params = roles.param_names(osel.node)
+        self.p_short_indices = params[[i for i, a in enumerate(call.args) if is_self_attr(a, 'short_indices')][0]]
+        on = osel.node
+        self.revkey = roles.one_local(on, roles.is_reversed_slice, 'reversed key (X[::-1])', nested=True)
+        # the If testing `revkey in ...`
+        self.rev_ifs = [n for n in ast.walk(on) if isinstance(n, ast.If) and isinstance(n.test, ast.Compare) and
+                        isinstance(n.test.left, ast.Name) and n.test.left.id == self.revkey and isinstance(n.test.ops[0], ast.In)]
+        if len(self.rev_ifs) != 1: raise AnalysisError('`if <reversed key> in ...` not found exactly once in the helper')
+        inside = set(id(x) for st in self.rev_ifs[0].body for x in ast.walk(st))
+        flags = []
+        for name, v, st in roles.assignments(on, nested=True):
+            if id(st) in inside and isinstance(v, ast.Constant) and v.value is True and name not in flags: flags.append(name)
+        if len(flags) != 1: raise AnalysisError('reverse flag: exactly one variable set True in the reversed-key branch expected, found %s' % flags)
+        self.flag = flags[0]
+        self.inside_rev = inside
+        # the converted list: receives append((..., flag, ...))
+        apps = [n for n in ast.walk(on) if isinstance(n, ast.Call) and call_name(n) == 'append' and n.args and
+                isinstance(n.args[0], ast.Tuple) and any(isinstance(e, ast.Name) and e.id == self.flag for e in n.args[0].elts)
+                and isinstance(n.func.value, ast.Name)]
+        if len(apps) != 1: raise AnalysisError('append of the converted selection item (a tuple carrying the reverse flag) not found exactly once')
+        self.app = apps[0]
+        self.conv = apps[0].func.value.id
+        self.item = [e.id if isinstance(e, ast.Name) else None for e in apps[0].args[0].elts]
+        self.p_flag = self.item.index(self.flag)
+        # full line index: assigned from <...>._row[...] ; short line index: from the short_indices parameter
+        full = roles.locals_where(on, lambda v: isinstance(v, ast.Subscript) and isinstance(v.value, ast.Attribute) and v.value.attr == '_row', nested=True)
+        short = roles.locals_where(on, lambda v: isinstance(v, ast.Subscript) and self.p_short_indices in roles.names_in(v.value), nested=True)
+        full = [x for x in full if x in self.item]; short = [x for x in short if x in self.item]
+        if len(full) != 1 or len(short) != 1 or full == short:
+            raise AnalysisError('full/short line index of the item not identified (%s / %s)' % (full, short))
+        self.p_full, self.p_short = self.item.index(full[0]), self.item.index(short[0])
+        # the conversion loop
+        self.loop = None
+        for n in walk_no_nested(on):
+            if isinstance(n, ast.For) and any(x is self.app for x in ast.walk(n)): self.loop = n; break
+        # per-table lists: history() picks `S if is_short else F` where is_short comes from self._short[...]
+        shortflag = roles.locals_where(hi.node, lambda v: isinstance(v, ast.Subscript) and is_self_attr(v.value, '_short'))
+        pick = [n for n in walk_no_nested(hi.node) if isinstance(n, ast.IfExp) and isinstance(n.test, ast.Name) and n.test.id in shortflag
+                and isinstance(n.body, ast.Name) and isinstance(n.orelse, ast.Name)]
+        if len(pick) != 1: raise AnalysisError('history(): `<short list> if <is short> else <full list>` not found exactly once')
+        S, F = pick[0].body.id, pick[0].orelse.id
+        self.pick = pick[0]
+        pos = None
+        for n in walk_no_nested(hi.node):
+            if isinstance(n, ast.For) and isinstance(n.target, ast.Tuple):
+                tn = [e.id if isinstance(e, ast.Name) else None for e in n.target.elts]
+                if S in tn and F in tn: pos = (tn.index(F), tn.index(S))
+        if pos is None: raise AnalysisError('history(): loop unpacking the per-table selection lists not found')
+        # helper side: the returned list receives append((table, F, S))
+        rets = [r.value.id for r in ast.walk(on) if isinstance(r, ast.Return) and isinstance(r.value, ast.Name)]
+        self.list_full = self.list_short = None
+        for n in ast.walk(on):
+            if isinstance(n, ast.Call) and call_name(n) == 'append' and isinstance(n.func.value, ast.Name) and n.func.value.id in rets \
+               and n.args and isinstance(n.args[0], ast.Tuple) and len(n.args[0].elts) > max(pos):
+                e = n.args[0].elts
+                if isinstance(e[pos[0]], ast.Name) and isinstance(e[pos[1]], ast.Name):
+                    self.list_full, self.list_short = e[pos[0]].id, e[pos[1]].id
+        if self.list_full is None: raise AnalysisError('helper: append of (table, full list, short list) to the returned list not found')
+
+
 def rule_sign(run):
     run.rule('SIGN', 'both lookup paths that accept a reversed connection key negate the values', floor=2)
     prog = run.prog
     # (a) listingtable.__getitem__
     gi = prog.func('t2listing.listingtable.__getitem__')
+    key = 'listingtable.__getitem__ :: reversed key negates'
+    rk = roles.locals_where(gi.node, roles.is_reversed_slice)
     found = False
     for n in walk_no_nested(gi.node):
         if isinstance(n, ast.If) and isinstance(n.test, ast.Compare) and isinstance(n.test.left, ast.Name) \
-           and n.test.left.id == 'revkey' and isinstance(n.test.ops[0], ast.In):
+           and n.test.left.id in rk and isinstance(n.test.ops[0], ast.In):
             found = True
             rets = [r for r in ast.walk(ast.Module(body=n.body, type_ignores=[])) if isinstance(r, ast.Return)]
             neg = False
@@ -264,80 +341,75 @@ def rule_sign(run):
                     if isinstance(x, ast.UnaryOp) and isinstance(x.op, ast.USub) and \
                        any(is_self_attr(y, '_data') for y in ast.walk(x.operand)):
                         neg = True
-            run.check(neg, 'listingtable.__getitem__ :: reversed key negates',
-                      'the row returned for a reversed connection key is not negated (-self._data[...])',
-                      where=gi.where(n))
+            if not rets: run.unknown(key, 'no return in the reversed-key branch', where=gi.where(n))
+            else:
+                run.check(neg, key, 'the row returned for a reversed connection key is not negated (-self._data[...])',
+                          where=gi.where(n))
     if not found:
-        run.unknown('listingtable.__getitem__ :: reversed key negates', '`if revkey in self.row_name` not found',
-                    where=gi.where())
+        run.unknown(key, '`if <key[::-1]> in self.row_name` not found', where=gi.where())
     # (b) history: reverse flag set where the reversed key matched, consumed as a sign
-    hi = prog.func('t2listing.t2listing.history')
-    osel = prog.nested(hi, 'ordered_selection')
-    flag_set = False
-    for n in ast.walk(osel.node):
-        if isinstance(n, ast.If) and isinstance(n.test, ast.Compare) and isinstance(n.test.left, ast.Name) \
-           and n.test.left.id == 'revkey' and isinstance(n.test.ops[0], ast.In):
-            for s in n.body:
-                if isinstance(s, ast.Assign) and isinstance(s.targets[0], ast.Name) and \
-                   s.targets[0].id == 'reverse' and isinstance(s.value, ast.Constant) and s.value.value is True:
-                    flag_set = True
-    # defaults to False elsewhere
-    dflt = all(not (isinstance(s, ast.Assign) and isinstance(s.targets[0], ast.Tuple) and
-                    any(isinstance(e, ast.Name) and e.id == 'reverse' for e in s.targets[0].elts) and
-                    isinstance(s.value, ast.Tuple) and
-                    any(isinstance(v, ast.Constant) and v.value is True for v in s.value.elts))
-               for s in ast.walk(osel.node))
-    run.check(flag_set and dflt, 'history.ordered_selection :: reverse flag',
-              'reverse flag is not set exactly in the reversed-key branch', where=osel.where())
-    # tuple positions: append((tablename, index, ishort, h, reverse, sel_index)) ; comprehension
-    # (i, h, rev, sel_index) for (tname, i, ishort, h, rev, sel_index) ; for (lineindex, colname, reverse, sel_index) in ts
-    pos_app = None
-    for n in ast.walk(osel.node):
-        if isinstance(n, ast.Call) and call_name(n) == 'append' and dotted(n.func.value) == 'converted_selection' \
-           and n.args and isinstance(n.args[0], ast.Tuple):
-            names = [e.id if isinstance(e, ast.Name) else None for e in n.args[0].elts]
-            if 'reverse' in names: pos_app = names.index('reverse')
-    comp_ok = True
+    R = SelRoles(prog)
+    hi, osel = R.hi, R.osel
+    # every other assignment of the flag is a constant False
+    others = [(v, st) for name, v, st in roles.assignments(osel.node, nested=True) if name == R.flag and id(st) not in R.inside_rev]
+    nonfalse = [st for v, st in others if not (isinstance(v, ast.Constant) and v.value is False)]
+    key = 'history.ordered_selection :: reverse flag'
+    if not others: run.violated(key, 'the reverse flag `%s` has no default (False) outside the reversed-key branch' % R.flag, where=osel.where())
+    elif nonfalse:
+        if all(isinstance(v, ast.Constant) for v, st in others):
+            run.violated(key, 'the reverse flag `%s` is set to a value other than False outside the reversed-key branch' % R.flag,
+                         where=osel.where(nonfalse[0]))
+        else: run.unknown(key, 'reverse flag assigned a non-constant value', where=osel.where(nonfalse[0]))
+    else: run.ok(key, 'flag `%s`: True only where the reversed key matched, False otherwise' % R.flag, where=osel.where())
+    # tuple positions: flag position in the item -> position in the per-table tuples
+    comp_bad, comp_unknown = [], []
     out_pos = set()
     ncomp = 0
     for n in ast.walk(osel.node):
         if isinstance(n, ast.ListComp) and isinstance(n.elt, ast.Tuple) and len(n.generators) == 1 and \
-           dotted(n.generators[0].iter) == 'converted_selection' and isinstance(n.generators[0].target, ast.Tuple):
+           isinstance(n.generators[0].iter, ast.Name) and n.generators[0].iter.id == R.conv and isinstance(n.generators[0].target, ast.Tuple):
             ncomp += 1
             tn = [e.id if isinstance(e, ast.Name) else None for e in n.generators[0].target.elts]
-            if pos_app is None or pos_app >= len(tn): comp_ok = False; continue
-            rv = tn[pos_app]
+            if len(tn) != len(R.item): comp_bad.append('unpacks %d of %d item fields' % (len(tn), len(R.item))); continue
+            rv = tn[R.p_flag]
             en = [e.id if isinstance(e, ast.Name) else None for e in n.elt.elts]
-            if rv in en: out_pos.add(en.index(rv))
-            else: comp_ok = False
-    run.check(pos_app is not None and comp_ok and ncomp >= 2 and len(out_pos) == 1,
-              'history.ordered_selection :: reverse flag position',
-              'the reverse flag does not travel at a consistent tuple position from converted_selection to the '
-              'table selections', where=osel.where())
+            if rv is not None and en.count(rv) == 1: out_pos.add(en.index(rv))
+            elif None in en: comp_unknown.append('non-name element in the per-table tuple')
+            else: comp_bad.append('the flag (field %d of the item) is not passed on' % R.p_flag)
+    key = 'history.ordered_selection :: reverse flag position'
+    if ncomp < 2 or comp_unknown: run.unknown(key, 'per-table comprehensions over `%s` not recognised (%d found) %s' % (R.conv, ncomp, comp_unknown), where=osel.where())
+    elif comp_bad or len(out_pos) != 1:
+        run.violated(key, 'the reverse flag does not travel at a consistent tuple position from the converted item to the '
+                     'table selections: %s' % (comp_bad or sorted(out_pos)), where=osel.where())
+    else: run.ok(key, 'item field %d -> table tuple field %d' % (R.p_flag, list(out_pos)[0]), where=osel.where())
     # consumption
-    consumed = False
+    key = 'history :: reverse flag consumed as sign'
+    consumed, seen_loop = False, False
     for n in walk_no_nested(hi.node):
-        if isinstance(n, ast.For) and isinstance(n.target, ast.Tuple) and out_pos:
+        if isinstance(n, ast.For) and isinstance(n.target, ast.Tuple) and len(out_pos) == 1 and isinstance(n.iter, ast.Name) and \
+           any(x is R.pick for x in ast.walk(hi.node)) and n.iter.id in [nm for nm, v, st in roles.assignments(hi.node) if v is R.pick]:
+            seen_loop = True
             tn = [e.id if isinstance(e, ast.Name) else None for e in n.target.elts]
             p = list(out_pos)[0]
-            if p < len(tn) and tn[p] is not None and isinstance(n.iter, ast.Name):
+            if p < len(tn) and tn[p] is not None:
                 flag = tn[p]
                 sgnvar = None
-                for s in ast.walk(n):
-                    if isinstance(s, ast.Assign) and isinstance(s.targets[0], ast.Name) and \
-                       isinstance(s.value, ast.Subscript) and isinstance(s.value.value, ast.List) and \
-                       isinstance(s.value.slice, ast.Name) and s.value.slice.id == flag:
-                        vals = [ast.literal_eval(e) if isinstance(e, (ast.Constant, ast.UnaryOp)) else None
-                                for e in s.value.value.elts]
-                        if vals == [1.0, -1.0]: sgnvar = s.targets[0].id
-                for s in ast.walk(n):
-                    if isinstance(s, ast.Call) and call_name(s) == 'append' and s.args and sgnvar:
-                        a = s.args[0]
-                        if isinstance(a, ast.BinOp) and isinstance(a.op, ast.Mult) and \
-                           any(isinstance(x, ast.Name) and x.id == sgnvar for x in (a.left, a.right)):
+                for s_ in ast.walk(n):
+                    if isinstance(s_, ast.Assign) and isinstance(s_.targets[0], ast.Name) and \
+                       isinstance(s_.value, ast.Subscript) and isinstance(s_.value.value, ast.List) and \
+                       isinstance(s_.value.slice, ast.Name) and s_.value.slice.id == flag:
+                        try: vals = [ast.literal_eval(e) for e in s_.value.value.elts]
+                        except Exception: vals = None
+                        if vals == [1.0, -1.0]: sgnvar = s_.targets[0].id
+                for s_ in ast.walk(n):
+                    if isinstance(s_, ast.Call) and call_name(s_) == 'append' and s_.args and sgnvar:
+                        a_ = s_.args[0]
+                        if isinstance(a_, ast.BinOp) and isinstance(a_.op, ast.Mult) and \
+                           any(isinstance(x, ast.Name) and x.id == sgnvar for x in (a_.left, a_.right)):
                             consumed = True
-    run.check(consumed, 'history :: reverse flag consumed as sign',
-              'the value appended to the history is not multiplied by [1,-1][reverse]', where=hi.where())
+    if not seen_loop: run.unknown(key, 'loop over the chosen per-table list not found', where=hi.where())
+    else:
+        run.check(consumed, key, 'the value appended to the history is not multiplied by [1,-1][<reverse flag>]', where=hi.where())
 
 
 def rule_selection(run):
@@ -346,65 +418,73 @@ def rule_selection(run):
              'sorted by the line index its sequential reader advances on (full-table row for full output, short-table line for '
              'short output)', floor=3)
     prog = run.prog
-    hi = prog.func('t2listing.t2listing.history')
-    osel = prog.nested(hi, 'ordered_selection')
-    loops = [n for n in walk_no_nested(osel.node) if isinstance(n, ast.For) and 'selection' in norm(n.iter)]
+    R = SelRoles(prog)
+    hi, osel = R.hi, R.osel
     key = 'history.ordered_selection :: selection item built from values assigned in the same iteration'
-    if not loops:
+    if R.loop is None:
         run.unknown(key, 'conversion loop not found', where=osel.where())
     else:
-        lp = loops[0]
-        apps = [c for c in ast.walk(lp) if isinstance(c, ast.Call) and call_name(c) == 'append' and norm(c.func.value) == 'converted_selection']
-        if len(apps) != 1 or not isinstance(apps[0].args[0], ast.Tuple):
-            run.unknown(key, 'append of the converted item not found', where=osel.where(lp))
-        else:
-            stmt = None
-            for st in ast.walk(lp):
-                if isinstance(st, ast.Expr) and st.value is apps[0]: stmt = st
-            da = flow.DefAssign()
-            targets = set()
-            flow.DefAssign.targets(lp.target, targets)
+        lp = R.loop
+        stmt = None
+        for st in ast.walk(lp):
+            if isinstance(st, ast.Expr) and st.value is R.app: stmt = st
+        da = flow.DefAssign()
+        targets = set()
+        flow.DefAssign.targets(lp.target, targets)
 
-            class Probe(flow.Analysis):
-                states = []
-                def transfer(self, st, s):
-                    if st is stmt: Probe.states.append(s)
-                    return da.transfer(st, s)
-                def loop_head(self, n, s): return da.loop_head(n, s)
-                def join(self, a, b): return da.join(a, b)
-            Probe.states = []
-            flow.run(Probe(), lp.body, frozenset(targets))
-            assigned = None
-            for s_ in Probe.states: assigned = s_ if assigned is None else (assigned & s_)
-            names = [e.id for e in apps[0].args[0].elts if isinstance(e, ast.Name)]
-            stale = [n for n in names if assigned is not None and n not in assigned]
-            if assigned is None: run.unknown(key, 'append not reached', where=osel.where(lp))
-            elif stale:
-                run.violated(key, '%s can reach the appended item without having been assigned in this iteration: the value left by the previous '
-                             'selection item is used (a row given by integer index inherits the reversed-name flag of the item before it and '
-                             'comes back negated)' % stale, where=osel.where(apps[0]))
-            else: run.ok(key, names, where=osel.where(apps[0]))
+        class Probe(flow.Analysis):
+            states = []
+            def transfer(self, st, s):
+                if st is stmt: Probe.states.append(s)
+                return da.transfer(st, s)
+            def loop_head(self, n, s): return da.loop_head(n, s)
+            def join(self, a, b): return da.join(a, b)
+        Probe.states = []
+        flow.run(Probe(), lp.body, frozenset(targets))
+        assigned = None
+        for s_ in Probe.states: assigned = s_ if assigned is None else (assigned & s_)
+        names = [e for e in R.item if e is not None]
+        outer = set(roles.param_names(osel.node))
+        stale = [n for n in names if assigned is not None and n not in assigned and n not in outer]
+        if assigned is None: run.unknown(key, 'append not reached', where=osel.where(lp))
+        elif stale:
+            run.violated(key, '%s can reach the appended item without having been assigned in this iteration: the value left by the previous '
+                         'selection item is used (a row given by integer index inherits the reversed-name flag of the item before it and '
+                         'comes back negated)' % stale, where=osel.where(R.app))
+        else: run.ok(key, names, where=osel.where(R.app))
     # sortedness of the per-table lists
-    conv_sorted = any(isinstance(c, ast.Call) and call_name(c) == 'sort' and norm(c.func.value) == 'converted_selection' for c in ast.walk(osel.node))
-    for lst in ('tselect', 'tselect_short'):
-        key = 'history.ordered_selection :: %s ordered by its own line index' % lst
-        asg = [n for n in ast.walk(osel.node) if isinstance(n, ast.Assign) and norm(n.targets[0]) == lst]
-        if not asg or not isinstance(asg[0].value, (ast.ListComp, ast.Call)):
-            run.unknown(key, 'construction not found', where=osel.where()); continue
-        v = asg[0].value
+    conv_sorted = any(isinstance(c, ast.Call) and call_name(c) == 'sort' and isinstance(c.func.value, ast.Name) and c.func.value.id == R.conv
+                      for c in ast.walk(osel.node))
+    for role, lst, want_pos, other_pos in (('full-output list', R.list_full, R.p_full, R.p_short),
+                                           ('short-output list', R.list_short, R.p_short, R.p_full)):
+        key = 'history.ordered_selection :: %s ordered by its own line index' % role
+        asg = [v for n, v, st in roles.assignments(osel.node, nested=True) if n == lst]
+        if len(asg) != 1 or not isinstance(asg[0], (ast.ListComp, ast.Call)):
+            run.unknown(key, 'construction of `%s` not found' % lst, where=osel.where()); continue
+        v = asg[0]
         wrapped = isinstance(v, ast.Call) and call_name(v) == 'sorted'
         comp = v.args[0] if wrapped and v.args else v
-        own = wrapped or any(isinstance(c, ast.Call) and call_name(c) == 'sort' and norm(c.func.value) == lst for c in ast.walk(osel.node))
-        lead = norm(comp.elt.elts[0]) if isinstance(comp, ast.ListComp) and isinstance(comp.elt, ast.Tuple) else None
-        tgt = [norm(e) for e in comp.generators[0].target.elts] if isinstance(comp, ast.ListComp) and isinstance(comp.generators[0].target, ast.Tuple) else []
-        inherited = conv_sorted and len(tgt) > 1 and lead == tgt[1]      # converted_selection sorted by (table, full index, ...)
-        want = 'i' if lst == 'tselect' else 'ishort'
-        if lead is not None and lead != want and lead in tgt:
-            run.violated(key, 'the list leads with `%s`, but its reader advances on `%s`' % (lead, want), where=osel.where(asg[0]))
-        elif own or inherited: run.ok(key, 'sorted' if own else 'inherits the order of converted_selection', where=osel.where(asg[0]))
+        if not (isinstance(comp, ast.ListComp) and isinstance(comp.elt, ast.Tuple) and isinstance(comp.generators[0].target, ast.Tuple)
+                and isinstance(comp.generators[0].iter, ast.Name) and comp.generators[0].iter.id == R.conv
+                and isinstance(comp.elt.elts[0], ast.Name)):
+            run.unknown(key, 'construction of `%s` is not a comprehension of tuples over `%s`' % (lst, R.conv), where=osel.where(v)); continue
+        own = wrapped or any(isinstance(c, ast.Call) and call_name(c) == 'sort' and isinstance(c.func.value, ast.Name) and c.func.value.id == lst
+                             for c in ast.walk(osel.node))
+        tgt = [e.id if isinstance(e, ast.Name) else None for e in comp.generators[0].target.elts]
+        lead = comp.elt.elts[0].id
+        lead_pos = tgt.index(lead) if lead in tgt and len(tgt) == len(R.item) else None
+        inherited = conv_sorted and lead_pos == 1 and want_pos == 1      # the converted list sorted by (table, full index, ...)
+        if lead_pos is None:
+            run.unknown(key, 'leading element `%s` is not a field of the converted item' % lead, where=osel.where(v))
+        elif lead_pos == other_pos:
+            run.violated(key, 'the %s leads with the %s line index (item field %d), but its reader advances on item field %d'
+                         % (role, 'short' if other_pos == R.p_short else 'full', lead_pos, want_pos), where=osel.where(v))
+        elif lead_pos != want_pos:
+            run.unknown(key, 'leads with item field %d, which is neither line index' % lead_pos, where=osel.where(v))
+        elif own or inherited: run.ok(key, 'sorted' if own else 'inherits the order of the converted list', where=osel.where(v))
         else:
-            run.violated(key, '%s is never sorted by `%s`: history() reads each table forwards only, so an item whose line lies before the '
-                         'previous item\'s re-uses the line already read and returns the wrong row' % (lst, lead), where=osel.where(asg[0]))
+            run.violated(key, '`%s` is never sorted by its line index: history() reads each table forwards only, so an item whose line lies before the '
+                         'previous item\'s re-uses the line already read and returns the wrong row' % lst, where=osel.where(v))
 
 
 def check(run):
